@@ -15,53 +15,47 @@ def GoodLensL (P : K → Prop) : List (PTree K) → Prop
   | c :: cs => GoodLens P c ∧ GoodLensL P cs
 end
 
-theorem sep_not_mem (a b : String) (A : List String) (ha : a ∉ A) (hb : b ∉ A) : sep a b A = false := by
-  simp [sep, ha, hb]
+/-- the predicate only looks at kept tips -/
+def Kept (inc : List String) (Tk : List String) (φ : List String → Bool) : Prop :=
+  (∀ x ∈ Tk, inc.contains x = true) ∧ BipPred Tk φ
 
-theorem sep_filter (keep : String → Bool) (a b : String) (A : List String) (ha : keep a = true)
-    (hb : keep b = true) : sep a b (A.filter keep) = sep a b A := by
-  simp [sep, List.mem_filter, ha, hb]
+theorem Kept.filter {inc Tk : List String} {φ : List String → Bool} (h : Kept inc Tk φ) (A : List String) :
+    φ (A.filter fun x => inc.contains x) = φ A :=
+  h.2.congr _ _ fun x hx => by
+    have := h.1 x hx
+    simp only [List.mem_filter, this, and_true]
+
+theorem Kept.none {inc Tk : List String} {φ : List String → Bool} (h : Kept inc Tk φ) (A : List String)
+    (hA : ∀ x ∈ A, inc.contains x = false) : φ A = false :=
+  h.2.none_in A fun x hx hxA => by have := hA x hxA; rw [h.1 x hx] at this; cases this
 
 section
 variable [AddCommMonoid K]
 
 /-- own edge + everything below -/
-def wsum (d : K) (a b : String) (t : PTree K) : K :=
-  splitW d a b (edgeSplit t) + sumBy (splitW d a b) (splits t)
+def wsum (d : K) (φ : List String → Bool) (t : PTree K) : K :=
+  phiW d φ (edgeSplit t) + sumBy (phiW d φ) (splits t)
 
-theorem sum_splitsL (d : K) (a b : String) (cs : List (PTree K)) :
-    sumBy (splitW d a b) (splitsL cs) = sumBy (wsum d a b) cs := by
+theorem sum_splitsL (d : K) (φ : List String → Bool) (cs : List (PTree K)) :
+    sumBy (phiW d φ) (splitsL cs) = sumBy (wsum d φ) cs := by
   induction cs with
   | nil => rfl
   | cons c cs ih => simp [splitsL, sumBy, sumBy_append, wsum, ih, add_assoc]
 
 omit [AddCommMonoid K] in
-theorem splitW_edge [Zero K] (d : K) (a b n : String) (l : Option K) (cs : List (PTree K)) :
-    splitW d a b (edgeSplit (PTree.node n l cs)) =
-      if sep a b (tips (PTree.node n l cs)) then lenOr d l else 0 := rfl
+theorem phiW_edge [Zero K] (d : K) (φ : List String → Bool) (n : String) (l : Option K) (cs : List (PTree K)) :
+    phiW d φ (edgeSplit (PTree.node n l cs)) =
+      if φ (tips (PTree.node n l cs)) then lenOr d l else 0 := rfl
 
-mutual
-theorem wsum_zero (d : K) (a b : String) : ∀ (t : PTree K), a ∉ tips t → b ∉ tips t → wsum d a b t = 0
-  | .node n l cs, ha, hb => by
-    have h1 : splitW d a b (edgeSplit (PTree.node n l cs)) = 0 := by
-      simp only [splitW, edgeSplit, sep_not_mem a b _ ha hb]; simp
-    cases cs with
-    | nil => simp [wsum, h1, splits, splitsL, sumBy]
-    | cons c cs =>
-      rw [tips_node_ne_nil _ _ _ (by simp)] at ha hb
-      simp only [wsum, h1, splits, zero_add]
-      exact sumL_zero d a b (c :: cs) ha hb
-theorem sumL_zero (d : K) (a b : String) : ∀ (cs : List (PTree K)), a ∉ tipsL cs → b ∉ tipsL cs →
-    sumBy (splitW d a b) (splitsL cs) = 0
-  | [], _, _ => rfl
-  | c :: cs, ha, hb => by
-    simp only [tipsL, List.mem_append, not_or] at ha hb
-    have h1 := wsum_zero d a b c ha.1 hb.1
-    have h2 := sumL_zero d a b cs ha.2 hb.2
-    simp only [splitsL, List.cons_append, sumBy, sumBy_append]
-    simp only [wsum] at h1
-    rw [← add_assoc, h1, h2]; simp
-end
+/-- a subtree without kept tips contributes nothing -/
+theorem wsum_zero (d : K) {inc Tk : List String} {φ : List String → Bool} (hk : Kept inc Tk φ)
+    (t : PTree K) (h : ∀ x ∈ tips t, inc.contains x = false) : wsum d φ t = 0 := by
+  have hz : ∀ s ∈ edgeSplit t :: splits t, phiW d φ s = 0 := by
+    intro s hs
+    have : φ s.side = false := hk.none s.side fun x hx => h x (child_sides t s hs x hx)
+    simp [phiW, this]
+  have := sumBy_zero (phiW d φ) (edgeSplit t :: splits t) hz
+  simpa [sumBy, wsum] using this
 
 variable [DecidableEq K]
 
@@ -69,11 +63,11 @@ variable [DecidableEq K]
 def SubOK (P : K → Prop) (d : K) (inc : List String) (t : PTree K) : Option (PTree K) → Prop
   | none => ∀ x ∈ tips t, inc.contains x = false
   | some r => tips r = (tips t).filter (fun x => inc.contains x) ∧ GoodLens P r ∧
-      ∀ a b, inc.contains a = true → inc.contains b = true → wsum d a b r = wsum d a b t
+      ∀ Tk φ, Kept inc Tk φ → wsum d φ r = wsum d φ t
 
 def SubLOK (P : K → Prop) (d : K) (inc : List String) (cs rs : List (PTree K)) : Prop :=
   tipsL rs = (tipsL cs).filter (fun x => inc.contains x) ∧ GoodLensL P rs ∧
-    ∀ a b, inc.contains a = true → inc.contains b = true → sumBy (wsum d a b) rs = sumBy (wsum d a b) cs
+    ∀ Tk φ, Kept inc Tk φ → sumBy (wsum d φ) rs = sumBy (wsum d φ) cs
 
 omit [AddCommMonoid K] [DecidableEq K] in
 theorem goodLens_len (P : K → Prop) (t : PTree K) (h : GoodLens P t) : ∃ x, t.len = some x ∧ P x := by
@@ -99,7 +93,7 @@ theorem subGo_ok (P : K → Prop) (hadd : ∀ x y, P x → P y → P (x + y)) (h
       rename_i hc
       simp only [Bool.and_eq_true, List.isEmpty_iff] at hc
       obtain ⟨hn, rfl⟩ := hc
-      refine ⟨?_, hg, fun _ _ _ _ => rfl⟩
+      refine ⟨?_, hg, fun _ _ _ => rfl⟩
       have hn' : n ∈ inc := by simpa using hn
       simp [tips, hn']
     · rename_i hc
@@ -130,20 +124,20 @@ theorem subGo_ok (P : K → Prop) (hadd : ∀ x y, P x → P y → P (x + y)) (h
         · rw [tips_rename, htt, htips]
         · refine ⟨⟨x + y, ?_, hadd x y hPx hPy⟩, goodLens_children P c' hgood.1⟩
           simp [hlx, hly, mergeLen, hxy]
-        · intro a b ha hb
-          have hs := hsum a b ha hb
+        · intro Tk φ hk
+          have hs := hsum Tk φ hk
           simp only [sumBy, add_zero] at hs
-          have hsep : sep a b (tips (PTree.node n (some x) cs)) = sep a b (tips c') := by
-            rw [htt, htips, sep_filter _ a b _ ha hb]
-          have e1 : wsum d a b (PTree.node c'.name (mergeLen (some x) c'.len) c'.children) =
-              (if sep a b (tips c') then x + y else 0) + sumBy (splitW d a b) (splits c') := by
-            simp [wsum, splitW, edgeSplit, tips_rename, splits_rename, hlx, hly, mergeLen, hxy, lenOr]
-          have e2 : wsum d a b (PTree.node n (some x) cs) =
-              (if sep a b (tips c') then x else 0) + sumBy (wsum d a b) cs := by
+          have hsep : φ (tips (PTree.node n (some x) cs)) = φ (tips c') := by
+            rw [htt, htips, hk.filter]
+          have e1 : wsum d φ (PTree.node c'.name (mergeLen (some x) c'.len) c'.children) =
+              (if φ (tips c') then x + y else 0) + sumBy (phiW d φ) (splits c') := by
+            simp [wsum, phiW, edgeSplit, tips_rename, splits_rename, hlx, hly, mergeLen, hxy, lenOr]
+          have e2 : wsum d φ (PTree.node n (some x) cs) =
+              (if φ (tips c') then x else 0) + sumBy (wsum d φ) cs := by
             simp only [wsum, splits, sum_splitsL]
-            simp [splitW, edgeSplit, hsep, hlx, lenOr]
-          have e3 : wsum d a b c' = (if sep a b (tips c') then y else 0) + sumBy (splitW d a b) (splits c') := by
-            simp [wsum, splitW, edgeSplit, hly, lenOr]
+            simp [phiW, edgeSplit, hsep, hlx, lenOr]
+          have e3 : wsum d φ c' = (if φ (tips c') then y else 0) + sumBy (phiW d φ) (splits c') := by
+            simp [wsum, phiW, edgeSplit, hly, lenOr]
           rw [e1, e2, ← hs, e3]
           split <;> simp [add_assoc]
       | c' :: c'' :: rest, hrs =>
@@ -152,14 +146,14 @@ theorem subGo_ok (P : K → Prop) (hadd : ∀ x y, P x → P y → P (x + y)) (h
         simp only [SubOK]
         refine ⟨?_, ⟨⟨x, hlx, hPx⟩, hgood⟩, ?_⟩
         · rw [tips_node_ne_nil _ _ _ (by simp), htt, htips]
-        · intro a b ha hb
-          have hsep : sep a b (tips (PTree.node n (some x) (c' :: c'' :: rest))) = sep a b (tips (PTree.node n (some x) cs)) := by
-            rw [tips_node_ne_nil _ _ _ (by simp), htt, htips, sep_filter _ a b _ ha hb]
-          simp only [wsum, splits, sum_splitsL, hsum a b ha hb, splitW_edge]
+        · intro Tk φ hk
+          have hsep : φ (tips (PTree.node n (some x) (c' :: c'' :: rest))) = φ (tips (PTree.node n (some x) cs)) := by
+            rw [tips_node_ne_nil _ _ _ (by simp), htt, htips, hk.filter]
+          simp only [wsum, splits, sum_splitsL, hsum Tk φ hk, phiW_edge]
           rw [hsep]
 theorem subL_ok (P : K → Prop) (hadd : ∀ x y, P x → P y → P (x + y)) (h0 : ¬ P 0) (d : K)
     (inc : List String) : ∀ (cs : List (PTree K)), GoodLensL P cs → SubLOK P d inc cs (subL inc true cs)
-  | [], _ => ⟨rfl, trivial, fun _ _ _ _ => rfl⟩
+  | [], _ => ⟨rfl, trivial, fun _ _ _ => rfl⟩
   | c :: cs, hg => by
     have h1 := subGo_ok P hadd h0 d inc c hg.1
     obtain ⟨ht, hgd, hs⟩ := subL_ok P hadd h0 d inc cs hg.2
@@ -172,17 +166,15 @@ theorem subL_ok (P : K → Prop) (hadd : ∀ x y, P x → P y → P (x + y)) (h0
       · have : (tips c).filter (fun x => inc.contains x) = [] := by
           rw [List.filter_eq_nil_iff]; intro y hy; rw [h1 y hy]; decide
         simp only [tipsL, List.filter_append, ht, this, List.nil_append]
-      · intro a b ha hb
-        have ha' : a ∉ tips c := fun h => absurd (h1 a h) (by rw [ha]; decide)
-        have hb' : b ∉ tips c := fun h => absurd (h1 b h) (by rw [hb]; decide)
-        simp only [sumBy, wsum_zero d a b c ha' hb', zero_add, hs a b ha hb]
+      · intro Tk φ hk
+        simp only [sumBy, wsum_zero d hk c h1, zero_add, hs Tk φ hk]
     | some r =>
       rw [hr] at h1
       obtain ⟨h1t, h1g, h1s⟩ := h1
       refine ⟨?_, ⟨h1g, hgd⟩, ?_⟩
       · simp only [tipsL, List.filter_append, ht, h1t]
-      · intro a b ha hb
-        simp only [sumBy, h1s a b ha hb, hs a b ha hb]
+      · intro Tk φ hk
+        simp only [sumBy, h1s Tk φ hk, hs Tk φ hk]
 end
 
 omit [AddCommMonoid K] [DecidableEq K] in
@@ -199,8 +191,8 @@ theorem subGo_root (P : K → Prop) (hadd : ∀ x y, P x → P y → P (x + y)) 
     (hg : GoodLensL P cs) (r0 : PTree K) (h : subGo inc kr true (PTree.node n l cs) = some r0)
     (hr0 : r0.children ≠ []) :
     tipsL r0.children = (tipsL cs).filter (fun x => inc.contains x) ∧ GoodLensL P r0.children ∧
-      ∀ a b, inc.contains a = true → inc.contains b = true → a ∈ tipsL cs → b ∈ tipsL cs →
-        sumBy (splitW d a b) (splitsL r0.children) = sumBy (splitW d a b) (splitsL cs) := by
+      ∀ Tk φ, Kept inc Tk φ → (∀ x ∈ Tk, x ∈ tipsL cs) →
+        sumBy (phiW d φ) (splitsL r0.children) = sumBy (phiW d φ) (splitsL cs) := by
   have hL := subL_ok P hadd h0 d inc cs hg
   have hemp : cs.isEmpty = false := by cases cs <;> simp_all
   simp only [subGo, hemp, Bool.not_true, Bool.or_false, Bool.and_false, Bool.false_eq_true, if_false] at h
@@ -213,7 +205,7 @@ theorem subGo_root (P : K → Prop) (hadd : ∀ x y, P x → P y → P (x + y)) 
     · simp only [hk, if_true, Option.some.injEq] at h
       subst h
       simp only [children_node]
-      exact ⟨htips, hgood, fun a b ha hb _ _ => by rw [sum_splitsL, sum_splitsL, hsum a b ha hb]⟩
+      exact ⟨htips, hgood, fun Tk φ hk _ => by rw [sum_splitsL, sum_splitsL, hsum Tk φ hk]⟩
     · have hk' : kr = false := by simpa using hk
       subst hk'
       simp only [Bool.false_eq_true, if_false, reduceIte, Option.some.injEq] at h
@@ -222,19 +214,19 @@ theorem subGo_root (P : K → Prop) (hadd : ∀ x y, P x → P y → P (x + y)) 
       simp only [tipsL, List.append_nil] at htips
       refine ⟨?_, goodLens_children P c' hgood.1, ?_⟩
       · rw [← tips_of_children c' hr0, htips]
-      · intro a b ha hb hat hbt
-        have hmem : ∀ z, inc.contains z = true → z ∈ tipsL cs → z ∈ tips c' := by
-          intro z hz hzt; rw [htips, List.mem_filter]; exact ⟨hzt, hz⟩
-        have hedge : splitW d a b (edgeSplit c') = 0 := by
-          simp only [splitW, edgeSplit, sep_both_mem a b _ (hmem a ha hat) (hmem b hb hbt)]; simp
-        have := hsum a b ha hb
+      · intro Tk φ hk hsub
+        have hmem : ∀ z ∈ Tk, z ∈ tips c' := by
+          intro z hz; rw [htips, List.mem_filter]; exact ⟨hsub z hz, hk.1 z hz⟩
+        have hedge : phiW d φ (edgeSplit c') = 0 := by
+          simp only [phiW, edgeSplit, hk.2.all_in (tips c') hmem]; simp
+        have := hsum Tk φ hk
         simp only [sumBy, add_zero, wsum, hedge, zero_add] at this
         rw [← splits_eq_children, this, sum_splitsL]
   | c' :: c'' :: rest, _ =>
     simp only [Option.some.injEq] at h
     subst h
     simp only [children_node]
-    exact ⟨htips, hgood, fun a b ha hb _ _ => by rw [sum_splitsL, sum_splitsL, hsum a b ha hb]⟩
+    exact ⟨htips, hgood, fun Tk φ hk _ => by rw [sum_splitsL, sum_splitsL, hsum Tk φ hk]⟩
 
 omit [AddCommMonoid K] in
 theorem getSubTree_ok [Add K] [Zero K] (t : PTree K) (inc : List String) (im kr tonly : Bool) (r : PTree K)
@@ -258,8 +250,100 @@ theorem getSubTree_ok [Add K] [Zero K] (t : PTree K) (inc : List String) (im kr 
       · simp only [he, if_false, reduceIte, Bool.false_eq_true, Except.ok.injEq] at h
         exact ⟨r0, rfl, by simpa using he, h.symm⟩
 
+omit [AddCommMonoid K] [DecidableEq K] in
+theorem goodLensL_iff (P : K → Prop) : ∀ (cs : List (PTree K)), GoodLensL P cs ↔ ∀ c ∈ cs, GoodLens P c
+  | [] => by simp [GoodLensL]
+  | c :: cs => by simp [GoodLensL, goodLensL_iff P cs]
+
+omit [DecidableEq K] in
+theorem goodLensL_unrooted (P : K → Prop) (hadd : ∀ x y, P x → P y → P (x + y)) (t : PTree K)
+    (hg : GoodLensL P t.children) : GoodLensL P (unrooted t).children := by
+  cases t with
+  | node n l cs =>
+    simp only [children_node] at hg
+    simp only [unrooted]
+    split
+    · cases hs : splitFirstInternal cs with
+      | none => simpa using hg
+      | some v =>
+        obtain ⟨pre, x, post⟩ := v
+        obtain ⟨hcs, _, _⟩ := splitFirstInternal_spec cs pre x post hs
+        subst hcs
+        rw [goodLensL_iff] at hg
+        obtain ⟨xl, hxl, hPx⟩ := goodLens_len P x (hg x (by simp))
+        have hb : ∀ s, GoodLens P s → GoodLens P (bumpLen x.len s) := by
+          intro s hs'
+          obtain ⟨sl, hsl, hPs⟩ := goodLens_len P s hs'
+          have := goodLens_children P s hs'
+          cases s with
+          | node sn sl' scs =>
+            simp only [len_node] at hsl; subst hsl
+            simp only [bumpLen, name_node, len_node, children_node, hxl, addLen, GoodLens]
+            exact ⟨⟨sl + xl, rfl, hadd sl xl hPs hPx⟩, this⟩
+        simp only [children_node]
+        rw [goodLensL_iff]
+        intro c hc
+        simp only [List.mem_append, List.mem_map] at hc
+        rcases hc with (⟨s, hs', rfl⟩ | hc) | ⟨s, hs', rfl⟩
+        · exact hb s (hg s (by simp [hs']))
+        · exact (goodLensL_iff P _).1 (goodLens_children P x (hg x (by simp))) c hc
+        · exact hb s (hg s (by simp [hs']))
+    · simpa using hg
+
 /-- `get_sub_tree(names, tipsonly=True)`: the result has exactly the kept tips (in the original
-order) and every distance among them is the original one. -/
+order), its edges still carry lengths in `P`, and every bipartition functional over the kept tips
+(weighted unrooted topology; in particular every distance) is the original one. -/
+theorem getSubTree_phi (P : K → Prop) (hadd : ∀ x y, P x → P y → P (x + y)) (h0 : ¬ P 0) (d : K)
+    (t : PTree K) (inc : List String) (im kr : Bool) (r : PTree K)
+    (h : getSubTree t inc im kr true = .ok r)
+    (hg : GoodLensL P t.children) (hnd : (tips t).Nodup) :
+    tips r = (tips t).filter (fun x => inc.contains x) ∧ GoodLensL P r.children ∧
+      ∀ φ, BipPred (tips r) φ → topoWeight d φ r = topoWeight d φ t := by
+  cases t with
+  | node n l cs =>
+    simp only [children_node] at hg
+    obtain ⟨r0, h0', hr0, h⟩ := getSubTree_ok _ inc im kr true r h
+    have h := h.symm
+    have hcs : cs ≠ [] := by
+      rintro rfl
+      simp only [subGo, subL] at h0'
+      split at h0'
+      · injection h0' with h0'; subst h0'; simp at hr0
+      · cases h0'
+    obtain ⟨ht, hgd, hs⟩ := subGo_root P hadd h0 d inc kr n l cs hcs hg r0 h0' hr0
+    have htt : tips (PTree.node n l cs) = tipsL cs := tips_node_ne_nil _ _ _ hcs
+    -- the renamed root
+    generalize hr1 : PTree.node (if r0.name = "" then "" else "root") r0.len r0.children = r1 at h
+    have hr1t : tips r1 = (tips (PTree.node n l cs)).filter (fun x => inc.contains x) := by
+      rw [← hr1, tips_node_ne_nil _ _ _ hr0, ht, htt]
+    have hr1g : GoodLensL P r1.children := by rw [← hr1]; exact hgd
+    have hr1d : ∀ φ, BipPred (tips r1) φ → topoWeight d φ r1 = topoWeight d φ (PTree.node n l cs) := by
+      intro φ hφ
+      have hk : Kept inc (tips r1) φ :=
+        ⟨fun x hx => by rw [hr1t, List.mem_filter] at hx; exact hx.2, hφ⟩
+      have hsub : ∀ x ∈ tips r1, x ∈ tipsL cs := by
+        intro x hx; rw [hr1t, List.mem_filter, htt] at hx; exact hx.1
+      rw [← hr1] at hk hsub ⊢
+      simp only [topoWeight, splits]
+      exact hs _ φ hk hsub
+    simp only [children_node] at h
+    by_cases hgt : cs.length > 2
+    · simp only [hgt, if_true, reduceIte] at h
+      subst h
+      have hlen : ∀ c ∈ r1.children, ∃ l, c.len = some l := by
+        intro c hc
+        obtain ⟨x, hx, _⟩ := goodLens_len P c (goodLensL_mem P _ hr1g c hc)
+        exact ⟨x, hx⟩
+      refine ⟨by rw [tips_unrooted, hr1t], goodLensL_unrooted P hadd r1 hr1g, ?_⟩
+      intro φ hφ
+      rw [tips_unrooted] at hφ
+      rw [unrooted_phi d r1 (by rw [hr1t]; exact hnd.filter _) hlen φ hφ]
+      exact hr1d φ hφ
+    · simp only [hgt, if_false, reduceIte] at h
+      subst h
+      exact ⟨hr1t, hr1g, hr1d⟩
+
+/-- … in particular every distance among kept tips -/
 theorem getSubTree_spec (P : K → Prop) (hadd : ∀ x y, P x → P y → P (x + y)) (h0 : ¬ P 0) (d : K)
     (t : PTree K) (inc : List String) (im kr : Bool) (r : PTree K)
     (h : getSubTree t inc im kr true = .ok r)
@@ -267,49 +351,11 @@ theorem getSubTree_spec (P : K → Prop) (hadd : ∀ x y, P x → P y → P (x +
     tips r = (tips t).filter (fun x => inc.contains x) ∧
       ∀ a b, inc.contains a = true → inc.contains b = true → a ∈ tips t → b ∈ tips t →
         distSpec d a b r = distSpec d a b t := by
-  cases t with
-  | node n l cs =>
-    simp only [children_node] at hg
-    obtain ⟨r0, h0', hr0, h⟩ := getSubTree_ok _ inc im kr true r h
-    have h := h.symm
-    · · · have hcs : cs ≠ [] := by
-            rintro rfl
-            simp only [subGo, subL] at h0'
-            split at h0'
-            · injection h0' with h0'; subst h0'; simp at hr0
-            · cases h0'
-          obtain ⟨ht, hgd, hs⟩ := subGo_root P hadd h0 d inc kr n l cs hcs hg r0 h0' hr0
-          have htt : tips (PTree.node n l cs) = tipsL cs := tips_node_ne_nil _ _ _ hcs
-          -- the renamed root
-          generalize hr1 : PTree.node (if r0.name = "" then "" else "root") r0.len r0.children = r1 at h
-          have hr1t : tips r1 = (tips (PTree.node n l cs)).filter (fun x => inc.contains x) := by
-            rw [← hr1, tips_node_ne_nil _ _ _ hr0, ht, htt]
-          have hr1d : ∀ a b, inc.contains a = true → inc.contains b = true →
-              a ∈ tips (PTree.node n l cs) → b ∈ tips (PTree.node n l cs) →
-              distSpec d a b r1 = distSpec d a b (PTree.node n l cs) := by
-            intro a b ha hb hat hbt
-            rw [← hr1]
-            simp only [distSpec, splits]
-            exact hs a b ha hb (htt ▸ hat) (htt ▸ hbt)
-          simp only [children_node] at h
-          by_cases hgt : cs.length > 2
-          · simp only [hgt, if_true, reduceIte] at h
-            subst h
-            refine ⟨by rw [tips_unrooted, hr1t], ?_⟩
-            intro a b ha hb hat hbt
-            have hmem : ∀ z, inc.contains z = true → z ∈ tips (PTree.node n l cs) → z ∈ tips r1 := by
-              intro z hz hzt; rw [hr1t, List.mem_filter]; exact ⟨hzt, hz⟩
-            rw [unrooted_dist d r1 (by rw [hr1t]; exact hnd.filter _)
-              (by
-                intro c hc
-                rw [← hr1] at hc
-                obtain ⟨x, hx, _⟩ := goodLens_len P c (goodLensL_mem P _ hgd c hc)
-                exact ⟨x, hx⟩)
-              a b (hmem a ha hat) (hmem b hb hbt)]
-            exact hr1d a b ha hb hat hbt
-          · simp only [hgt, if_false, reduceIte] at h
-            subst h
-            exact ⟨hr1t, hr1d⟩
+  obtain ⟨ht, _, hφ⟩ := getSubTree_phi P hadd h0 d t inc im kr r h hg hnd
+  refine ⟨ht, fun a b ha hb hat hbt => ?_⟩
+  have hmem : ∀ z, inc.contains z = true → z ∈ tips t → z ∈ tips r := by
+    intro z hz hzt; rw [ht, List.mem_filter]; exact ⟨hzt, hz⟩
+  exact hφ (sep a b) (bipPred_sep _ a b (hmem a ha hat) (hmem b hb hbt))
 
 end
 end CogentModel.Phylo
